@@ -124,6 +124,7 @@ def check(ctx: Ctx) -> None:
     _check_variations(ctx)
     _check_axis_order(ctx)
     _check_falsy_zero(ctx)
+    _check_accumulators_reset(ctx)
     from ..idioms import check_index_sets_not_spans
     check_index_sets_not_spans(ctx, 'C05.h', ['pyphysim/simulations/results.py', PAR, RUNNER], floor=2)
     from ..idioms import check_none_tests
@@ -131,6 +132,33 @@ def check(ctx: Ctx) -> None:
 
 
 from ..idioms import falsy_zero_tests  # noqa: E402
+
+
+def _check_accumulators_reset(ctx: Ctx) -> None:
+    """C05.j: per-call accumulators of the runner are reset by every simulate() call."""
+    from ..dsf import must_store_on_all_paths
+    M = ctx.model
+    ctx.rule('C05.j', 'every list attribute the runner APPENDS to while simulating is assigned afresh on every normal path of simulate() (a second '
+                      'simulate() on the same runner must not add to the counts of the first)', floor=1)
+    cls = M.cls('SimulationRunner')
+    appended = set()
+    for fn in cls.methods.values():
+        sn = fn.self_name
+        for n in walk_no_nested(fn.node):
+            if isinstance(n, ast.Call) and isinstance(n.func, ast.Attribute) and n.func.attr in ('append', 'extend') \
+                    and is_self_attr(n.func.value, sn or 'self'):
+                appended.add(is_self_attr(n.func.value, sn or 'self'))
+    if not appended:
+        ctx.error('C05.j: the runner no longer appends to any attribute while simulating (cannot tell)')
+    for a in sorted(appended):
+        construct = 'SimulationRunner.simulate:' + a
+        ctx.instance('C05.j', construct)
+        ok, f = must_store_on_all_paths(M, cls, 'simulate', a)
+        ctx.obligation('C05.j', construct, ok, {'attribute': a})
+        if not ok:
+            ctx.violation('C05.j', 'SimulationRunner.simulate', 'a normal path of simulate() never re-assigns `self.%s`, to which the run appends: a second '
+                          'simulate() on the same runner keeps adding to the list of the first (runned_reps then has 2N, 3N ... entries)' % a,
+                          f.path, f.lineno, operand='reset:' + a)
 
 
 def _check_falsy_zero(ctx: Ctx) -> None:
